@@ -124,6 +124,39 @@ pub fn run(tier: Tier, seed: u64) -> i32 {
         });
     }
 
+    // (2d) the SAME buffers, changed in place between two calls on one thread (a launcher re-checks files it has just
+    //      patched): a result remembered by buffer address / length / part of the salt would be stale
+    {
+        let mut bufs: [Vec<u8>; 5] = [refmodel::ctr_bytes(seed, "ip0", 40), refmodel::ctr_bytes(seed, "ip1", 3), vec![], refmodel::ctr_bytes(seed, "ip3", 70_000), refmodel::ctr_bytes(seed, "ip4", 17)];
+        let mut s_ip = salt;
+        let mut k_ip = key;
+        let mut n_ip = 0u64;
+        for step in 0..160usize {
+            // one in-place change per step: a byte of one file, a byte of the salt (any position), a byte of the key
+            match step % 4 {
+                0 | 1 => {
+                    let fi = [0usize, 1, 3, 4][(step / 4) % 4];
+                    let l = bufs[fi].len();
+                    bufs[fi][(step * 7919) % l] ^= 1 + (step as u8 % 7);
+                }
+                2 => s_ip[(step / 4) % 16] ^= 0x40,
+                _ => k_ip[(step / 4) % 32] ^= 0x04,
+            }
+            let all: Vec<u8> = bufs.iter().flatten().copied().collect();
+            let want = integrity(&all, &s_ip, &k_ip);
+            let w = login_integrity_check_windows(&bufs[0], &bufs[1], &bufs[2], &bufs[3], &bufs[4], &s_ip, &k_ip);
+            let m = login_integrity_check_mac(&bufs[0], &bufs[1], &bufs[2], &bufs[3], &bufs[4], &s_ip, &k_ip);
+            let g = login_integrity_check_generic(&all, &s_ip, &k_ip);
+            n_ip += 3;
+            if w != want || m != want || g != want {
+                viol(&report, "stale-result-after-in-place-change", json!({"step": step, "changed": (["file byte", "file byte", "salt byte", "key byte"][step % 4])}), format!("after changing the same buffers in place (step {step}) windows {} mac {} generic {} reference {}", hex(&w), hex(&m), hex(&g), hex(&want)));
+                break;
+            }
+        }
+        evals.fetch_add(n_ip, Ordering::Relaxed);
+        report.count("in_place_change_calls", n_ip);
+    }
+
     // (3) sensitivity: every single-byte change of every file, the salt and the key changes the result (and still equals the reference)
     let files: [Vec<u8>; 5] = [
         refmodel::ctr_bytes(seed, "f0", 7),
